@@ -34,7 +34,7 @@ func mkHash(name string) hash.Hash {
 func init() {
 	Register(&Prop{ID: "C13",
 		Meta: Meta{Level: "exploration",
-			Rule: "command launch of a real Serve program through the simulated exec; the file at the command path has drawn contents (0..20000 bytes); SecureConfig.Checksum in {exact, every single-bit flip (all positions of the digest), every proper prefix, extended by 1..3 bytes, empty, digest of other contents, digest under another hash function} x Hash in {sha256, sha512, md5, nil}; file-system faults: EIO at a drawn offset, short reads, missing file, file replaced between check and launch is out of scope (documented by go-plugin). Oracle: a process is spawned iff digest(file) == checksum and the read succeeded; the error class matches (ErrChecksumsDoNotMatch / ErrSecureConfigNoChecksum / ErrSecureConfigNoHash / wrapped I/O error); kernel invariant: no spawn event before the file was read to EOF",
+			Rule:       "command launch of a real Serve program through the simulated exec; the file at the command path has drawn contents (0..20000 bytes); SecureConfig.Checksum in {exact, every single-bit flip (all positions of the digest), every proper prefix, extended by 1..3 bytes, empty, digest of other contents, digest under another hash function} x Hash in {sha256, sha512, md5, nil}; file-system faults: EIO at a drawn offset, short reads, missing file, file replaced between check and launch is out of scope (documented by go-plugin). Oracle: a process is spawned iff digest(file) == checksum and the read succeeded; the error class matches (ErrChecksumsDoNotMatch / ErrSecureConfigNoChecksum / ErrSecureConfigNoHash / wrapped I/O error); kernel invariant: no spawn event before the file was read to EOF",
 			Exhaustive: "for each hash function: all single-bit flips and all proper prefixes of the digest, extensions, empty checksum"},
 		Plan: func(tier string, seed uint64, stage int, prev []*h.Result) []*k.Spec {
 			if stage > 0 {
